@@ -342,14 +342,15 @@ def container_multiline_templates():
              b">": [b">", b">\t", b"> "]}
     pairs = [(b"[a](/u \"title", b"more\") z"), (b"x <a", b"href='y'> z"), (b"[foo]: /url 'title", b"more'\n\n[foo]"), (b"[a](/u", b"\"t\") z"),
              (b"`co", b"de` z"), (b"[a][b", b"c] z\n\n[b c]: /u"), (b"<!-- x", b"y --> z"), (b"*a", b"b* z"), (b"[a](<u", b"v>) z"), (b"[a](/u 't&amp;", b"y') z"),
-             (b"[a](/u '", b"foo') z"), (b"[a]: /u \"x&quot;", b"y\"\n\n[a]"), (b"<b c=\"d", b"e\"> z"), (b"a\\", b"b"), (b"a  ", b"b")]
+             (b"[a](/u '", b"foo') z"), (b"[a]: /u \"x&quot;", b"y\"\n\n[a]"), (b"<b c=\"d", b"e\"> z"), (b"a\\", b"b"), (b"a  ", b"b"),
+             (b"![a `co", b"de` b](/u) z"), (b"![a", b"b](/u \"t\") z"), (b"![x *a", b"b* `c", b"d`](/u)")[:2], (b"[![a", b"b](/i)](/u) z")]
     return [m + a + b"\n" + c + b2 + b"\n" for m, cs in conts.items() for c in cs for a, b2 in pairs]
 
 
 def final_newline_templates():
     """documents without a final line ending whose last bytes end an inline or block construct (the final-newline clause of C14)"""
     ends = [b"[a][]", b"![a][]", b"[a]", b"[a][a]", b"`x`", b"``x", b"*x*", b"**x", b"<b>", b"<b", b"[a](/u)", b"[a](/u", b"&amp;", b"&amp", b"\\", b"x  ", b"a\\",
-            b"<http://x.y>", b"<a@b.c", b"![x](/u \"t\")", b"x\t", b"]", b"[", b"# see [a][]", b"# x #", b"#", b"===", b"---", b"```", b"~~~ x", b"    c", b"<div>", b"<!-- x", b"<?", b"[b]: /v", b"[b]: /v \"t", b"[b]:"]
+            b"<http://x.y>", b"<a@b.c", b"![x](/u \"t\")", b"x\t", b"]", b"[", b"# see [a][]", b"# x #", b"#", b"===", b"---", b"```", b"~~~ x", b"    c", b"<div>", b"<!-- x", b"<?", b"[b]: /v", b"[b]: /v \"t", b"[b]:", b"-", b"+", b"*", b"1.", b"2)", b"- a\n-", b"1. a\n2.", b"- a\n  -", b"#", b">", b"-\t", b"* *"]
     pres = [b"", b"> ", b"- ", b"1. ", b"> - ", b"x\n"]
     return [b"[a]: /u\n\n" + p + e for p in pres for e in ends]
 
